@@ -35,10 +35,12 @@ type FakeChain struct {
 	// CallGate, when set, is consulted before every eth_call is answered (to hold an answer back)
 	CallGate func(to common.Address, method string)
 	// transactions (chaintx.go)
-	TxFail   int                  // the next TxFail transactions are refused by the node
-	Txs      []SentTx             // every transaction the node was handed, in order
-	OnTx     func(tx SentTx)      // called (outside the lock) for every accepted transaction
-	receipts map[common.Hash]bool // mined transactions
+	SubFail         int                  // the next SubFail eth_subscribe requests are refused
+	SubFailImplOnly bool                 // … those for a contract's own address only (not the clone factory's)
+	TxFail          int                  // the next TxFail transactions are refused by the node
+	Txs             []SentTx             // every transaction the node was handed, in order
+	OnTx            func(tx SentTx)      // called (outside the lock) for every accepted transaction
+	receipts        map[common.Hash]bool // mined transactions
 }
 
 type ChainContract struct {
@@ -175,6 +177,13 @@ func (c *FakeChain) SetFailAfter(skip, n int) {
 // ---- logs -----------------------------------------------------------------------------------------
 
 func (c *FakeChain) SubscribeFilterLogs(ctx context.Context, q ethereum.FilterQuery, ch chan<- types.Log) (ethereum.Subscription, error) {
+	c.mu.Lock()
+	if c.SubFail > 0 && !(c.SubFailImplOnly && len(q.Addresses) > 0 && q.Addresses[0] == c.CF) {
+		c.SubFail--
+		c.mu.Unlock()
+		return nil, fmt.Errorf("fake chain: subscription refused")
+	}
+	c.mu.Unlock()
 	s := &chainSub{q: q, ch: ch, errc: make(chan error, 1), done: make(chan struct{})}
 	c.mu.Lock()
 	c.subs = append(c.subs, s)
